@@ -101,6 +101,28 @@ def once_table(ctx) -> None:
                 good = stems == [STEMS[target]] and alias not in seen
                 ctx.check(good, 'C10.once-alias', fake, f'alias {alias!r} -> {target}', node, key=f'alias {alias}')
                 seen[alias] = target
+    # the same table written as a mapping - ``dict.fromkeys((aliases..), cls.X)`` groups or ``{'alias': cls.X}`` entries - anywhere in
+    # the enum (a later group overriding an earlier spelling is exactly the slip to look for)
+    once_cls = prog.cls(f'{COMPONENT}:Source.Extract.Ordinal.Once')
+    for mname in once_cls.methods:
+        mfn = prog.func(f'{once_cls.ref}.{mname}')
+        for c in ast.walk(mfn.node):
+            groups = []
+            if isinstance(c, ast.Call) and core.src(c.func) == 'dict.fromkeys' and len(c.args) == 2 and isinstance(c.args[0], (ast.Tuple, ast.List, ast.Set)):
+                groups.append(([e for e in c.args[0].elts], c.args[1]))
+            elif isinstance(c, ast.Dict):
+                groups += [([k], v_) for k, v_ in zip(c.keys, c.values) if k is not None]
+            for elts, val in groups:
+                target = (core.dotted(val) or '').split('.')[-1]
+                if target not in STEMS:
+                    continue
+                nsets += 1
+                for e in elts:
+                    if isinstance(e, ast.Constant) and isinstance(e.value, str):
+                        alias = e.value
+                        stems = [s_ for s_ in STEMS.values() if s_ in alias.replace('-', '')]
+                        ctx.check(stems == [STEMS[target]] and alias not in seen, 'C10.once-alias', mfn, f'alias {alias!r} -> {target}' + (f' (already maps to {seen[alias]}: the later entry wins)' if alias in seen else ''), c, key=f'alias {alias}')
+                        seen[alias] = target
     ctx.floor('C10.once-alias-sets', nsets, 3)
     # each member is returned exactly under "a string, lower-cased, member of its alias set"; anything else falls through
     v = fake.param_names[1]
